@@ -364,6 +364,9 @@ def stepLine (st : St) (toks : List String) : St :=
           | (v, _) :: _ => s!"variable {String.ofList v.name} ({String.ofList v.dtype})"
           | [] => "variable/action lists"
         judgeFail st s!"client model of service {i} differs from the definition: {what}"
+  | ["xcheck", res] =>
+      -- harness self-check: mocked-request path vs. real HTTP on loopback (see harness/c14.py)
+      if res = "ok" then st else corrFail st s!"loopback cross-check: {((tokStr (String.ofList (res.toList.drop 5))).getD res)}"
   | "call" :: _ => { st with pending := some toks }
   | "raw" :: _ => { st with pending := some toks }
   | ["cobs", seen, res] =>
